@@ -624,6 +624,9 @@ func (e *Env) runRPC() error {
 				}
 				continue
 			}
+			if step.Push.Split > 0 {
+				c.SplitNext = step.Push.Split
+			}
 			body := PushBody(step.Push)
 			if step.Push.Gzip {
 				body = refsrv.GzipPacked(body)
@@ -671,9 +674,17 @@ func (e *Env) runRPC() error {
 				st.mu.Unlock()
 			}
 			c.SetSalt(step.Salt)
-			e.Srv.LogNote("bad-salt", c, id, fmt.Sprintf("salt=%d for=%s", step.Salt, step.Push.Kind))
+			e.Srv.LogNote("bad-salt", c, id, fmt.Sprintf("salt=%d for=%s burst=%d", step.Salt, step.Push.Kind, step.N))
 			body := (&refsrv.W{}).U32(refsrv.IDBadServerSalt).I64(id).I32(1).I32(48).I64(step.Salt).B
-			if step.Push.InContainer {
+			if step.N > 1 {
+				// the server has gone through several salts in a row: one container, the notifications in order, the
+				// current salt last
+				var items []*refsrv.Item
+				for k := step.N - 1; k >= 0; k-- {
+					items = append(items, &refsrv.Item{Body: (&refsrv.W{}).U32(refsrv.IDBadServerSalt).I64(id + int64(4*k)).I32(1).I32(48).I64(step.Salt - int64(k)).B})
+				}
+				c.SendContainer(items)
+			} else if step.Push.InContainer {
 				c.SendContainer([]*refsrv.Item{{Body: body}})
 			} else {
 				c.Send(body, false)
